@@ -142,6 +142,34 @@ def directed_restart(r):
     return (na, nb, sorted(events, key=lambda e: e[0]), [], 0, latency, end, rev, fuel)
 
 
+def directed_lost_stop(r):
+    """The offerer stops gracefully and its StopOffer is the one datagram that gets lost; it starts again before the
+    watcher's stored offer runs out, so the watcher never sees the service go away: its Subscribe refreshes meet the
+    stopped offerer (NACK) and must go on afterwards.  The position of the StopOffer among the datagrams is taken from a
+    fault-free run of the same scenario."""
+    for _ in range(20):
+        sc = scenario(r, forever=False, calm=True)
+        na, nb, events, decisions, fault_end, latency, t_end, rev, fuel = sc
+        ca, cb = na[1], nb[1]
+        inst = phase_instants(ca, max(ca[0], min(ca[1], na[3][0])))
+        t1 = inst[-1] + r.choice([T // 8, T // 4, T // 2 + 3]) + r.choice([0, 1, 7])
+        refresh = cb[10]
+        t2 = t1 + refresh + r.choice([T // 8, T // 4]) + 4 * latency
+        if t2 + ca[1] + T // 8 >= t1 - ca[6] + ca[8] * T:
+            continue        # the watcher's stored offer would expire before the offerer offers again
+        evs = sorted(list(events) + [(t1, False, (0, [1])), (t2, False, (0, [0]))], key=lambda e: e[0])
+        log = []
+        syssim.run_impl((na, nb, evs, [], 0, latency, t2, rev, fuel), sendlog=log)
+        stops = [i for i, (t, who, mc, data) in enumerate(log) if who == 0 and mc and t >= t1 and t <= t1 + ca[11] + 1]
+        if not stops:
+            continue
+        k = stops[0]
+        dec = [[latency]] * k + [[]]
+        end = t2 + max(ca[8], cb[9], cb[7]) * T + max(ca[6], refresh) + 3 * T
+        return (na, nb, evs, dec, log[k][0] + 1, latency, max(end, t_end), rev, fuel)
+    return scenario(r, calm=True)
+
+
 def describe(sc):
     na, nb, events, decisions, fault_end, latency, t_end, rev, fuel = sc
     def node(n):
@@ -256,7 +284,7 @@ def run(ctx):
     n = 150 if quick else 6000
     scs = [undescribe(c["scenario"]) for c in load_corpus("C04") if "scenario" in c]
     for k in range(n):
-        scs.append(directed_restart(r) if k % 4 == 3 else scenario(r, forever=(k % 5 == 4), calm=(k % 25 == 0)))
+        scs.append(directed_restart(r) if k % 4 == 3 else directed_lost_stop(r) if k % 10 == 6 else scenario(r, forever=(k % 5 == 4), calm=(k % 25 == 0)))
     judge(ctx, scs)
 
 
